@@ -1005,6 +1005,11 @@ class Engine:
                 pm = getattr(a, 'ptr_metadata', None)
                 if pm is not None:
                     return pm(self)
+                if isinstance(a, Ref) and isinstance(a.cell, Cell):
+                    # reborrow of an unsized referent that is its own reference (&mut *slice)
+                    pm = getattr(a.cell.v, 'ptr_metadata', None)
+                    if pm is not None:
+                        return pm(self)
                 return UNIT
         if k == 'len':
             v = self.place_cell(fr, rv[1]).get(self)
